@@ -213,6 +213,37 @@ def run(ctx, report):
             else:
                 R5.violation(inst, 'rep-loop:order:%s:%s' % (a, b), 'in the rep loop the %s comes after the %s: the architecture does %s' % (a, b, ' -> '.join(order)),
                              where(eh, body[pos[a]]), witness='repne scasb with count 10 matching on the third byte must leave ecx == 7')
+    # every exit of the loop is the architectural termination test; an undecidable test is rejected, not skipped
+    def enclosing_tests(node, top):
+        tests, c, p_ = [], node, parent(node)
+        while p_ is not None and p_ is not top:
+            if isinstance(p_, ast.If):
+                tests.append((u(p_.test), any(c is st for st in p_.body)))
+            c, p_ = p_, parent(p_)
+        return tests
+    for br in [n for st in body for n in ast.walk(st) if isinstance(n, ast.Break)]:
+        tests = enclosing_tests(br, loops[0])
+        txt = ' and '.join(t if pol else 'not (%s)' % t for t, pol in tests)
+        inst = 'rep-exit:%s' % txt[:80]
+        if 'my_ecx.arg == 0' in txt.replace('==0', '== 0') and all(pol for t, pol in tests):
+            R5.ok(inst, sample='exit when the count is 0')
+        elif 'my_zf.arg' in txt and ('l.prefix' in txt):
+            R5.ok(inst, sample='exit on the zf test of repe/repne: %s' % txt[:70])
+        else:
+            R5.violation(inst, 'rep-loop:exit:%s' % txt[:80], 'the rep loop is left under `%s`, which is neither count == 0 nor the zf test of repe/repne: the state then holds a partially executed instruction'
+                         % txt, where(eh, br), witness="'rep stosb' with ecx = 0x1001 executes one step and leaves ecx unchanged")
+    zf_blocks = [st for st in body if isinstance(st, ast.If) and any('my_zf' in u(x) for x in ast.walk(st))]
+    for zb in zf_blocks:
+        uses_isinst = [n for n in ast.walk(zb) if isinstance(n, ast.If) and 'isinstance(my_zf, ExprInt)' in u(n.test) and any(isinstance(x, ast.Break) for x in n.body)]
+        rejects = [n for n in ast.walk(zb) if isinstance(n, ast.If) and u(n.test).replace(' ', '') in ('notisinstance(my_zf,ExprInt)',) and any(isinstance(x, ast.Raise) for x in n.body)]
+        if uses_isinst and not rejects:
+            R5.violation('rep-zf-symbolic', 'rep-loop:zf-symbolic-skipped', 'the zf termination test of repe/repne is applied only when zf evaluates to a constant (%s) and nothing rejects a symbolic zf: '
+                         'the loop then runs all ecx iterations whatever the compared data' % u(uses_isinst[0].test)[:80], where(eh, uses_isinst[0]),
+                         witness="'mov ecx,3; repe cmpsb' on symbolic memory leaves ecx = 0, esi = init_esi+3")
+        else:
+            R5.ok('rep-zf-symbolic', sample='a zf that does not evaluate to a constant is rejected (ValueError), as a symbolic count is')
+    if not zf_blocks:
+        raise AnalysisError('rep loop: the zf termination block was not found')
     from ..defassign import undefined_at_returns
     und, nret = undefined_at_returns(efe)
     if nret == 0:
@@ -386,11 +417,13 @@ def value_chain_ok(fn, fr, val, at, res_name, depth=0):
 
 
 MUTANTS = [
+    ('rep-zf-symbolic-skip', 'miasmx/tools/emul_helper.py', "                if not isinstance(my_zf, ExprInt):\n                    # the termination test cannot be decided\n                    raise ValueError('Emulation fails for \"%s\". ZF value is %s'\n                        % (l, str(my_zf)))\n", "", 'C07.D5'),
+    ('rep-cap-break', 'miasmx/tools/emul_helper.py', "                raise ValueError('Emulation fails for \"%s\". ECX value is too large: %s'\n                    % (l, str(my_ecx)))\n", "                break\n", 'C07.D5'),
     ('overlap-neg-position', 'miasmx/expression/expression_eval_abstract.py', "                        out.append((ee, 0, ee.get_size()))\n", "                        out.append((ee, off_base, off_base+ee.get_size()))\n", 'C07.D6'),
     ('overlap-unsorted', 'miasmx/expression/expression_eval_abstract.py', "                    out = sorted(out, key=lambda x:x[1])\n                    missing_slice", "                    missing_slice", 'C07.D6'),
     ('rest-slice-last', 'miasmx/expression/expression_eval_abstract.py', "        if last != stop:\n            o.append((b, stop))", "        if last != stop:\n            o.append((a, stop))", 'C07.D6'),
-    ('rep-zf-before-dec', 'miasmx/tools/emul_helper.py', "            info = l.opmode, l.admode\n            machine.eval_instr(mov(info, ecx, ExprOp('-', my_ecx, ExprInt(uint32(1)))))\n            machine.eval_expr(machine.pool[ecx], {})\n\n            if zf_w :\n                my_zf = machine.eval_expr(machine.pool[zf], {})\n                if 0xF3 in l.prefix and isinstance(my_zf, ExprInt) and my_zf.arg == 0:\n                    break\n                if 0xF2 in l.prefix and isinstance(my_zf, ExprInt) and my_zf.arg == 1:\n                    break\n",
-     "            if zf_w :\n                my_zf = machine.eval_expr(machine.pool[zf], {})\n                if 0xF3 in l.prefix and isinstance(my_zf, ExprInt) and my_zf.arg == 0:\n                    break\n                if 0xF2 in l.prefix and isinstance(my_zf, ExprInt) and my_zf.arg == 1:\n                    break\n            info = l.opmode, l.admode\n            machine.eval_instr(mov(info, ecx, ExprOp('-', my_ecx, ExprInt(uint32(1)))))\n            machine.eval_expr(machine.pool[ecx], {})\n\n", 'C07.D5'),
+    ('rep-zf-before-dec', 'miasmx/tools/emul_helper.py', '            info = l.opmode, l.admode\n            machine.eval_instr(mov(info, ecx, ExprOp(\'-\', my_ecx, ExprInt(uint32(1)))))\n            machine.eval_expr(machine.pool[ecx], {})\n\n            if zf_w :\n                my_zf = machine.eval_expr(machine.pool[zf], {})\n                if not isinstance(my_zf, ExprInt):\n                    # the termination test cannot be decided\n                    raise ValueError(\'Emulation fails for "%s". ZF value is %s\'\n                        % (l, str(my_zf)))\n                if 0xF3 in l.prefix and isinstance(my_zf, ExprInt) and my_zf.arg == 0:\n                    break\n                if 0xF2 in l.prefix and isinstance(my_zf, ExprInt) and my_zf.arg == 1:\n                    break\n',
+     '            if zf_w :\n                my_zf = machine.eval_expr(machine.pool[zf], {})\n                if not isinstance(my_zf, ExprInt):\n                    # the termination test cannot be decided\n                    raise ValueError(\'Emulation fails for "%s". ZF value is %s\'\n                        % (l, str(my_zf)))\n                if 0xF3 in l.prefix and isinstance(my_zf, ExprInt) and my_zf.arg == 0:\n                    break\n                if 0xF2 in l.prefix and isinstance(my_zf, ExprInt) and my_zf.arg == 1:\n                    break\n            info = l.opmode, l.admode\n            machine.eval_instr(mov(info, ecx, ExprOp(\'-\', my_ecx, ExprInt(uint32(1)))))\n            machine.eval_expr(machine.pool[ecx], {})\n\n', 'C07.D5'),
     ('rep-memdst-unbound', 'miasmx/tools/emul_helper.py', "        tsc_inc = 0\n        mem_dst = []\n", "        tsc_inc = 0\n", 'C07.D5'),
     ('pool-write-in-read-phase', 'miasmx/expression/expression_eval_abstract.py',
      '            elif isinstance(e.dst, ExprId):\n                pool_out[e.dst] = src\n',
